@@ -464,6 +464,34 @@ def run(run):
     run.check("R3", [norm(d.value) for d in ed] == ["SgxEnvelope(bytes.fromhex(powhsm_attestation['envelope']), bytes.fromhex(powhsm_attestation['message']))"],
               "envelope parsed from the gathered envelope and message", key="sgx_attestation|envelope-source", where=sx.loc(),
               message="the envelope is not parsed from the gathered envelope together with the separately fetched message")
+    # a genuine device's attestation is gathered whatever the (well-formed) sizes involved: the gathering commands decide on nothing but the
+    # operator's options and the documented message == envelope check (closed world; parsing errors come from the parsers, which R3 / C07 cover)
+    for gq, allowed in (("admin.sgx_attestation.do_attestation", {"options.output_file_path is None", "options.no_unlock"}),
+                        ("admin.ledger_attestation.do_attestation", {"options.output_file_path is None", "options.attestation_certificate_file_path is None",
+                                                                     "options.no_unlock", "powhsm_attestation['message'] != powhsm_attestation['envelope']"})):
+        gfn = P.func(gq)
+        gg_ = A.cfg(gfn, None)
+        nc_ = 0
+        for n_ in gg_.nodes:
+            if n_.kind != "cond":
+                continue
+            nc_ += 1
+            e_ = n_.ast
+            while isinstance(e_, ast.UnaryOp) and isinstance(e_.op, ast.Not):
+                e_ = e_.operand
+            texts_ = {norm(e_)} | {x for x in PV.expand_consistent(gfn, None, e_, n_, stop=("options", "powhsm_attestation"))}
+
+            def sides(t):
+                try:
+                    x = ast.parse(t, mode="eval").body
+                except SyntaxError:
+                    return frozenset([t])
+                return frozenset([_strip(norm(x.left)), _strip(norm(x.comparators[0]))]) if isinstance(x, ast.Compare) and len(x.ops) == 1 else frozenset([_strip(t)])
+            okc = any(sides(t) == sides(a) for t in texts_ for a in allowed)
+            run.check("R3", okc, f"{gfn.name}: `{norm(e_)[:50]}` is one of the documented conditions", key=f"{gq}|extra-condition|{norm(e_)[:50]}", where=gfn.loc(n_.ast),
+                      message=f"{gq} additionally decides on `{norm(e_)[:90]}`: a genuine device whose (well-formed) attestation falls on the wrong side of it - a "
+                              "count or size at the boundary - cannot be attested although everything it signed is intact")
+        run.floor("R3", f"conditions of {gq}", nc_, 2)
     tg = [norm(c.args[0]) for c in find_calls(A, sx, "add_target")]
     run.check("R3", tg == ["'quote'"], "target is quote", key="sgx_attestation|target", where=sx.loc(), message=f"targets added: {tg}")
     vs = P.func("admin.verify_sgx_attestation.do_verify_attestation")
